@@ -479,8 +479,13 @@ def _get_all_frames_from_exception_obj(exception_obj):
             current_tb_frames.append(traceback.tb_frame)
             traceback = traceback.tb_next
         all_frames.extend(reversed(current_tb_frames))
-        current_exception = (current_exception.__cause__ or
-                             current_exception.__context__)
+        # Follow the chain the way the traceback is displayed: the explicit
+        # cause, else the implicit context unless it is suppressed
+        # (``raise ... from None``).
+        next_exception = current_exception.__cause__
+        if next_exception is None and not current_exception.__suppress_context__:
+            next_exception = current_exception.__context__
+        current_exception = next_exception
     return all_frames
 
 
